@@ -238,6 +238,16 @@ def main():
             if classes.get(cl, 0) < n:
                 broken.append('%s/%s: %d obligations of class %s, expected >= %d (dropped contract?)' % (mod.NAME, h.name, classes.get(cl, 0), cl, n))
         rel = [o for o in obl if relevant(o, prop, hprops)]
+        # obligations that a listed open finding says fail on this tree (DESIGN 11.4) are reported as KNOWN-FINDING and are
+        # not counted among the obligations of the proof claim (neither as obligations nor as discharged)
+        def known_for(o):
+            for k in known:
+                if k.get('status', 'open') == 'open' and prop in k['properties'] and k['unit'] == mod.NAME and k['harness'] == h.name and k['obligation'] in o['desc']:
+                    return k
+            return None
+        kf_fail = [(known_for(o), o) for o in rel if o['status'] != 'SUCCESS' and known_for(o)]
+        known_hit += kf_fail
+        rel = [o for o in rel if not (o['status'] != 'SUCCESS' and known_for(o))]
         ok = [o for o in rel if o['status'] == 'SUCCESS']
         solver_s += res.get('solver_s', 0)
         if h.bounded:
@@ -260,17 +270,6 @@ def main():
                                         for k, v in res['functions'].items()},
                           'note': h.note})
         for i, o in enumerate([o for o in rel if o['status'] != 'SUCCESS']):
-            kf = None
-            for k in known:
-                if k.get('status', 'open') != 'open':
-                    continue
-                if prop in k['properties'] and k['unit'] == mod.NAME and k['harness'] == h.name and k['obligation'] in o['desc']:
-                    kf = k
-            if kf:
-                known_hit.append((kf, o))
-                continue
-            if h.bounded and False:
-                pass
             violations.append((mod, h, res, o, ctext, info))
     wall = time.time() - t0
     out_lines = []
@@ -331,8 +330,9 @@ def main():
         ev['coverage']['unverified_remainder'] = ur.get(prop, '')
     except Exception:
         pass
-    os.makedirs(os.path.join(VERIF, 'evidence'), exist_ok=True)
-    with open(os.path.join(VERIF, 'evidence', prop + '.json'), 'w') as f:
+    evdir = os.environ.get('VX_EVIDENCE_DIR') or os.path.join(VERIF, 'evidence')   # (seeded-mutant runs against a patched copy write elsewhere)
+    os.makedirs(evdir, exist_ok=True)
+    with open(os.path.join(evdir, prop + '.json'), 'w') as f:
         json.dump(ev, f, indent=1)
     print('%s tier=%s: %d harnesses, %d/%d obligations discharged (+%d/%d bounded), solver %.0fs, wall %.0fs -> exit %d' %
           (prop, tier, len(results), n_ok, n_obl, bounded_ok, bounded_obl, solver_s, wall, exit_code))
